@@ -59,6 +59,20 @@ structure Fix where
 def Fix.all : Fix := ⟨true, true, true, true, true⟩
 def Fix.none : Fix := ⟨false, false, false, false, false⟩
 
+/-- a code variant: the libmcount side and replay's longjmp fix-up (C11-LONGJMP-DEPTH) -/
+structure Code where
+  lib : Fix
+  replayFixed : Bool
+  deriving DecidableEq, Repr
+
+/-- THE CODE THAT IS IN /repo: all six libmcount-side repairs are committed (5f938bf, e263074, 1097009,
+    ede9d19, d634a1b, d21226c); replay's longjmp fix-up is as it was (one global setjmp_depth).
+    checks/c11.py reads this definition through the driver (`CURRENT`) and verifies with its probes that
+    the implementation follows exactly this variant. -/
+def Code.current : Code := ⟨Fix.all, false⟩
+@[reducible] def Fix.current : Fix := Code.current.lib
+@[reducible] def replayCurrent : Bool := Code.current.replayFixed
+
 /-- control part of a `struct mcount_ret_stack` -/
 structure Ctl where
   loc : Nat      -- parent_loc
@@ -417,6 +431,12 @@ inductive Op where
   | exit (child slot orig : Nat)
   | vforkExec (child slot orig echild eorig : Nat)
   | mtdDtor
+  /-- fork@plt and its return, seen in the parent (`inChild = false`) or in the child, which goes on
+      with a copy of the shadow stack and a fresh record buffer (atfork child handler) -/
+  | fork (inChild : Bool) (child slot orig : Nat)
+  /-- exec*@plt (forced flush), then the process image is replaced: a new libmcount starts with an
+      empty shadow stack; the task's record stream goes on -/
+  | exec (child slot orig : Nat)
   deriving DecidableEq, Repr
 
 def rjbSet (l : List (Nat × RJb)) (a : Nat) (v : RJb) : List (Nat × RJb) :=
@@ -433,6 +453,9 @@ def hookEntry (fx : Fix) (s : Sh) (k : Kind) (slot child : Nat) : Sh :=
   | .none => s
   | .mcount => mcountEntry fx s slot child
   | .plt => plthookEntry fx s slot child .plain 0
+
+/-- after fork: the parent's view, or the child's (own pid, fresh record buffer: atfork child handler) -/
+def forkSide (inChild : Bool) (s : Sh) : Sh := if inChild then { s with child := true, pid := s.pid + 1 } else s
 
 /-- enough fuel for the exit through longjmp: the longjmp entry, then the saved copy -/
 def ljFuel (s : Sh) (j : Nat) : Nat := s.rs.length + (s.jbs.lookup j).elim 0 (fun x => x.1.length) + 2
@@ -496,14 +519,34 @@ def step (fx : Fix) (m : M) : Op → M
     let p2 := retLoop (sh3.rs.length + 1) { sh3 with pid := sh3.pid - 1 } saved
     { m with sh := p2.1, last := p2.2 }
   | .mtdDtor => if m.halted then m else { m with sh := mtdDtor m.sh }
+  | .fork inChild child slot orig =>
+    if m.halted then m else
+    let sh0 := { m.sh with mem := upd m.sh.mem slot orig }
+    let sh1 := plthookEntry fx sh0 slot child .flush 0
+    let sh2 := forkSide inChild sh1
+    let p := retLoop (sh2.rs.length + 1) sh2 (sh2.mem slot)
+    { m with sh := p.1, last := p.2 }
+  | .exec child slot orig =>
+    if m.halted then m else
+    let sh0 := { m.sh with mem := upd m.sh.mem slot orig }
+    let sh1 := plthookEntry fx sh0 slot child .flush 0
+    { M.init with sh := { Sh.init with out := sh1.out, pid := sh1.pid, child := sh1.child }, last := m.last }
 
 def run (fx : Fix) (m : M) (ops : List Op) : M := ops.foldl (step fx) m
 
 /-! ### Replay: display depth with the longjmp fix-up (utils/fstack.c) -/
 
 inductive RKind where
-  | plain | setjmp | longjmp
+  | plain | setjmp | longjmp | exec
   deriving DecidableEq, Repr
+
+/-- which fix-up symbol a recorded address is (utils/fstack.c fixup_syms by name); the ids are those of
+    the harness: setjmp/__sigsetjmp, longjmp/siglongjmp, execl -/
+def symKind (addr : Nat) : RKind :=
+  if addr = 101 ∨ addr = 110 then .setjmp
+  else if addr = 102 ∨ addr = 109 then .longjmp
+  else if addr = 104 then .exec
+  else .plain
 
 structure RRec where
   typ : Nat       -- 0 ENTRY, 1 EXIT
@@ -532,6 +575,7 @@ def rstep (fixed : Bool) (s : RSt) (r : RRec) : RSt × Nat :=
       | _ => s
     let s := match r.kind with
       | .longjmp => if fixed then { s with pend := true, dd := s.dd + 1 } else { s with dd := s.last }
+      | .exec => { s with dd := 0 }      -- FSTACK_FL_EXEC: the new image starts at depth 0
       | _ => { s with dd := s.dd + 1 }
     (s, shown)
   else
@@ -553,8 +597,9 @@ structure CSt where
   started : Bool
   seen : Nat → Bool    -- a setjmp ENTRY at this depth has been seen
   afterLj : Bool
+  lastSj : Option Nat  -- depth of the most recent setjmp ENTRY
 
-def CSt.init : CSt := { cur := 0, started := false, seen := fun _ => false, afterLj := false }
+def CSt.init : CSt := { cur := 0, started := false, seen := fun _ => false, afterLj := false, lastSj := none }
 
 /-- may `r` follow in state `s`? -/
 def cok (s : CSt) (r : RRec) : Bool :=
@@ -567,9 +612,10 @@ def cok (s : CSt) (r : RRec) : Bool :=
 
 def cnext (s : CSt) (r : RRec) : CSt :=
   if r.typ = 0 then
-    { cur := r.depth + 1, started := true,
+    { cur := if r.kind = .exec then 0 else r.depth + 1, started := true,
       seen := if r.kind = .setjmp then (fun d => if d = r.depth then true else s.seen d) else s.seen,
-      afterLj := decide (r.kind = .longjmp) }
+      afterLj := decide (r.kind = .longjmp),
+      lastSj := if r.kind = .setjmp then some r.depth else s.lastSj }
   else
     { s with cur := r.depth, started := true, afterLj := false }
 
@@ -580,5 +626,20 @@ def coherent : CSt → List RRec → Bool
   | s, r :: rs => match cstep s r with
     | none => false
     | some s' => coherent s' rs
+
+/-- the excluding hypothesis for replay as it is (one global setjmp_depth): every longjmp lands in the
+    setjmp whose ENTRY was the last one seen -/
+def latestOk (s : CSt) (r : RRec) : Bool :=
+  if r.typ ≠ 0 ∧ s.afterLj then s.lastSj == some r.depth else true
+
+def latestOnly : CSt → List RRec → Bool
+  | _, [] => true
+  | s, r :: rs => latestOk s r && latestOnly (cnext s r) rs
+
+/-- a libmcount record as replay sees it -/
+def toRRec (r : Rec) : RRec := ⟨r.typ, r.depth, symKind r.addr⟩
+
+/-- the record stream of the task itself (the vfork child's records go to its own file) -/
+def taskStream (out : List Rec) : List RRec := (out.filter (fun r => r.tid == 0)).map toRRec
 
 end Uft.NonLocal
